@@ -1,9 +1,100 @@
-import Gzx.Util
+import Gzx.Model.OneD
 namespace Gzx.Driver.C03
-open Gzx
+open Gzx Gzx.CheckDigit Gzx.OneD
+
+def showR {α} (f : α → String) : Res α → String
+  | .ok a => f a
+  | .error (.panic _) => "PANIC"
+  | .error e => "ERR:" ++ e.tag
+
+def T := refTables
+
+def kindOf? : String → Option EanKind
+  | "ean13" => some .ean13 | "ean8" => some .ean8 | "upca" => some .upca | "upce" => some .upce
+  | _ => none
+
+def kindName : EanKind → String
+  | .ean13 => "EAN_13" | .ean8 => "EAN_8" | .upca => "UPC_A" | .upce => "UPC_E"
+
+def forcedOf? : String → Option (Option Nat)
+  | "-" => some none | "A" => some (some 101) | "B" => some (some 100) | "C" => some (some 99)
+  | _ => none
+
+def showPatterns (ps : List (List Nat)) : String := ";".intercalate (ps.map showNatList)
+
+def okBits (r : Res (List Bool)) : String := showR (fun b => "ok " ++ showBits b) r
+def okHex (r : Res (List Nat)) : String := showR (fun b => "ok " ++ showHex b) r
+
+def writerModules (sym : String) (bytes : List Nat) : Option (Res (List Bool)) :=
+  match sym with
+  | "ean13" => some (ean13Modules T bytes)
+  | "ean8" => some (ean8Modules T bytes)
+  | "upca" => some (upcaModules T bytes)
+  | "upce" => some (upceModules T bytes)
+  | "code39" => some (code39Modules T bytes)
+  | "code93" => some (code93Modules T bytes)
+  | "itf" => some (itfModules T bytes)
+  | "codabar" => some (codabarModules T bytes)
+  | _ => none
 
 /-- line-protocol handler of suite `c03` (arguments after the suite name) -/
 def handle : List String → String
+  | ["wr", sym, hex] =>
+    match parseHex? hex with
+    | some bs =>
+      -- OneDimensionalCodeWriter.Encode refuses empty contents before the encoder runs (UPC-A prepends "0" first)
+      if bs.isEmpty && sym != "upca" then "ERR:writer"
+      else (match writerModules sym bs with | some r => okBits r | none => "bad-op")
+    | none => "bad-op"
+  | ["wr128", forced, cps] =>
+    match forcedOf? forced, parseNatList? cps with
+    | some f, some cs => okBits (code128Modules T cs f)
+    | _, _ => "bad-op"
+  | ["codes128", forced, cps] =>
+    match forcedOf? forced, parseNatList? cps with
+    | some f, some cs => showR (fun c => "ok " ++ showNatList c) (code128Codes cs f)
+    | _, _ => "bad-op"
+  | ["render", bits, width, margin] =>
+    match parseNat? width, parseNat? margin with
+    | some w, some m => okBits (renderRow (parseBits bits) w m)
+    | _, _ => "bad-op"
+  | ["upcread", kind, bits] =>
+    match kindOf? kind with
+    | some k => okHex (decodeRow T k (parseBits bits))
+    | none => "bad-op"
+  | ["multi", fmts, bits] =>
+    let fs := if fmts == "-" then some [] else (fmts.splitOn ",").mapM kindOf?
+    match fs with
+    | some fs => showR (fun (r : EanKind × List Nat) => "ok " ++ kindName r.1 ++ " " ++ showHex r.2) (multiDecodeRow T fs (parseBits bits))
+    | none => "bad-op"
+  | ["ideal", sym, bits] =>
+    let m := parseBits bits
+    match sym with
+    | "code128" => okHex (code128Ideal T m)
+    | "code93" => okHex (code93Ideal T m)
+    | "code39" => okHex (code39Ideal T m false)
+    | "code39x" => okHex (code39Ideal T m true)
+    | "itf" => okHex (itfIdeal T [6, 8, 10, 12, 14] m)
+    | "codabar" => okHex (codabarIdeal T m)
+    | _ => "bad-op"
+  | ["read128", codes] =>
+    match parseNatList? codes with
+    | some cs => okHex (code128ReadCodes cs)
+    | none => "bad-op"
+  | ["unesc39", hex] =>
+    match parseHex? hex with
+    | some bs => okHex (code39Unescape bs)
+    | none => "bad-op"
+  | ["unesc93", hex] =>
+    match parseHex? hex with
+    | some bs => okHex (code93Unescape bs)
+    | none => "bad-op"
+  | ["tbl", "code128"] => showPatterns T.code128
+  | ["tbl", "code39"] => showNatList (T.code39Asterisk :: T.code39Enc)
+  | ["tbl", "code93"] => showNatList T.code93Enc
+  | ["tbl", "itf"] => showPatterns T.itfWriter
+  | ["tbl", "codabar"] => showNatList T.codabarEnc
+  | ["tbl", "lg"] => showPatterns (lAndG T.lPatterns)
   | _ => "bad-op"
 
 end Gzx.Driver.C03
